@@ -18,6 +18,18 @@ Import ListNotations.
 Open Scope Q_scope.
 Definition T3 (d s : nat) (c : Q) : @triple Q := (d, s, c).
 '''
+HEADER_F3 = '''From Coq Require Import ZArith QArith List Bool.
+From Pymoto Require Import Base.Num Base.Cmp.
+Import ListNotations.
+Open Scope Q_scope.
+Definition mv (M : list (list Q)) (x : list Q) : list Q := map (fun r => dot r x) M.
+Fixpoint tr (M : list (list Q)) (n : nat) : list (list Q) :=
+  match n with O => [] | S k => tr M k ++ [map (fun r => nth k r 0) M] end.
+Definition mm (A B : list (list Q)) (n : nat) : list (list Q) := map (fun r => mv (tr B n) r) A.
+Definition outer (a b : list Q) : list (list Q) := map (fun x => map (fun y => Qred (x * y)) b) a.
+Definition mneg (A : list (list Q)) := map (map Qopp) A.
+Definition ident (n : nat) : list (list Q) := map (fun i => map (fun j => if Nat.eqb i j then 1 else 0) (seq 0 n)) (seq 0 n).
+'''
 HEADER_F2 = '''From Coq Require Import Reals List.
 From Interval Require Import Tactic.
 From Pymoto Require Import Model.Formulas.
@@ -313,6 +325,50 @@ def run_goals(ctx, name, header, goals, labels, chunk=40):
     return fails
 
 
+# --------------------------------------------------------------------------------------------- F3 premises
+def f3_cases(ctx, pym, n):
+    """the premises of the secant theorems hold for what the implementation returns (exact Q, 1e-9):
+    LinSolve: A u = b, A^T db = w, dA = -db (x) u;   Inverse: A B = 1, dA = -B^T W B^T"""
+    rng = np.random.default_rng(ctx.seed + 5)
+    F = lambda a: [[Fraction(float(v)) for v in r] for r in a] if np.ndim(a) == 2 else [Fraction(float(v)) for v in a]
+    checks, labels = [], []
+    for t in range(n):
+        k = int(rng.integers(1, 6))
+        A = rng.integers(-4, 5, size=(k, k)).astype(float) + 6 * np.eye(k)
+        if t % 3 == 0:
+            A = (A + A.T) / 2
+        tol = qlit(Fraction(1, 10 ** 8))
+        if t % 2 == 0:
+            b = rng.integers(-4, 5, size=k).astype(float)
+            w = rng.integers(-3, 4, size=k).astype(float)
+            sA, sb, sx = pym.Signal('A', A.copy()), pym.Signal('b', b.copy()), pym.Signal('x')
+            m = pym.LinSolve([sA, sb], sx)
+            m.response()
+            sx.sensitivity = w.copy()
+            m.sensitivity()
+            u, dA, db = sx.state, sA.sensitivity, sb.sensitivity
+            checks.append(f'(Ql_close {tol} (mv {ql(F(A))} {ql(F(u))}) {ql(F(b))} && '
+                          f'Ql_close {tol} (mv (tr {ql(F(A))} {k}) {ql(F(db))}) {ql(F(w))} && '
+                          f'Qll_close {tol} (mneg (outer {ql(F(db))} {ql(F(u))})) {ql(F(dA))})')
+            labels.append(('LinSolve', k, t % 3 == 0))
+            ctx.count('f3:LinSolve')
+        else:
+            W = rng.integers(-3, 4, size=(k, k)).astype(float)
+            sA, sB = pym.Signal('A', A.copy()), pym.Signal('B')
+            m = pym.Inverse([sA], sB)
+            m.response()
+            sB.sensitivity = W.copy()
+            m.sensitivity()
+            B, dA = sB.state, sA.sensitivity
+            Bt = ql(F(B.T))
+            checks.append(f'(Qll_close {tol} (mm {ql(F(A))} {ql(F(B))} {k}) (ident {k}) && '
+                          f'Qll_close {tol} (mneg (mm (mm {Bt} {ql(F(W))} {k}) {Bt} {k})) {ql(F(dA))})')
+            labels.append(('Inverse', k))
+            ctx.count('f3:Inverse')
+        ctx.case(('f3', labels[-1], checks[-1][:300]), k >= 2, sample=dict(kind='F3 premises', module=labels[-1][0], n=k))
+    return checks, labels
+
+
 # --------------------------------------------------------------------------------------------- main
 def run(ctx):
     warnings.filterwarnings('ignore')
@@ -383,6 +439,17 @@ def run(ctx):
         broken = True
         ctx.violation('correspondence', labels[idx][0], 'sensitivity = transpose of response (apply T / apply (transpose T))', 'F1',
                       dict(module=labels[idx][0], cfg=labels[idx][1], meta=labels[idx][2]))
+    # (b') F3: premises of the secant identities on implementation outputs
+    checks, labels = f3_cases(ctx, pym, 60 if quick else 600)
+    failing, err = vlib.run_cases(ctx, 'f3', HEADER_F3, checks, chunk=100)
+    ctx.obligation('correspondence:F3 case files evaluated', 'correspondence', not err, err)
+    ctx.obligation('correspondence:F3 secant premises hold for LinSolve/Inverse outputs', 'correspondence', not failing and not err, str(failing[:10]))
+    if err:
+        ctx.violation('correspondence', 'F3', 'case files compile', 'harness', dict(error=err[-3000:]), theorem='cases_f3')
+    for idx in failing[:10]:
+        broken = True
+        ctx.violation('correspondence', labels[idx][0], 'premises of the secant identity (A u = b, A^T db = w, dA = -db (x) u / A B = 1, dA = -B^T W B^T)', 'F3',
+                      dict(label=labels[idx], coq=checks[idx][:3000]))
     # (c) F2 interval goals
     goals, glabels = f2_goals(ctx, pym, 40 if quick else 400)
     fails = run_goals(ctx, 'f2', HEADER_F2, goals, glabels)
